@@ -1,10 +1,12 @@
 import Driver.Drv.GetBlock
+import Driver.Drv.GetCFilter
 import Driver.Drv.Lru
 import Driver.Drv.Store
 namespace Driver
 
 def drivers : List (String × CaseFn) := [
   ("getblock", Driver.Drv.GetBlock.runCase),
+  ("getcfilter", Driver.Drv.GetCFilter.runCase),
   ("lru", Driver.Drv.Lru.runCase),
   ("store", Driver.Drv.Store.runCase)]
 
